@@ -264,10 +264,12 @@ class Unit:
         else:
             # lookup the unit symbols
             unit_data = _get_unit_data_from_expr(unit_expr, registry.lut)
-            base_value = unit_data[0]
+            # plain floats, whatever numeric type the table entries have:
+            # a numpy scalar here would decide the dtype of conversions
+            base_value = float(unit_data[0])
             dimensions = unit_data[1]
             if len(unit_data) > 2:
-                base_offset = unit_data[2]
+                base_offset = float(unit_data[2])
                 latex_repr = unit_data[3]
             else:
                 base_offset = 0.0
